@@ -635,6 +635,11 @@ func assignIPFromLocalPool(log logr.Logger, podsMapper map[string]*PodRequest, i
 						continue
 					}
 
+					if info.ipv6Ref != nil && v.NetworkInterface.ID != info.ipv6Ref.NetworkInterface.ID {
+						// the pod keeps its ipv6 (the ipv4 was lost), both must be on the same eni
+						continue
+					}
+
 					if v.IP.Status == networkv1beta1.IPStatusValid && v.IP.PodID == "" {
 						info.ipv4Ref = &EniIP{
 							NetworkInterface: v.NetworkInterface,
